@@ -186,6 +186,86 @@ func init() {
 		}
 		c.Fact("typedtool.setSchema_pointer", zero)
 
+		// setSchema and the SchemaCache: under which conditions each cache access happens, in source order
+		// (the Lean model `TypedTool.setSchema` transliterates exactly this: the by-type entries are
+		// consulted and stored only when the tool declares no schema, the by-pointer entries only when it
+		// hands over a *jsonschema.Schema), and the statements that end each branch.
+		var lookups []string
+		if ss != nil {
+			var walkSS func(list []ast.Stmt, conds []string)
+			visitExpr := func(n ast.Node, conds []string) {
+				ast.Inspect(n, func(m ast.Node) bool {
+					if ce, ok := m.(*ast.CallExpr); ok {
+						src := c.Src(ce.Fun)
+						switch src {
+						case "cache.getByType", "cache.setByType", "cache.getBySchema", "cache.setBySchema",
+							"jsonschema.ForType", "internalSchema.Resolve", "remarshal":
+							lookups = append(lookups, src+" @ "+strings.Join(conds, " && "))
+						}
+					}
+					return true
+				})
+			}
+			walkSS = func(list []ast.Stmt, conds []string) {
+				for _, st := range list {
+					switch x := st.(type) {
+					case *ast.IfStmt:
+						cond := c.Src(x.Cond)
+						if x.Init != nil {
+							visitExpr(x.Init, conds)
+							cond = c.Src(x.Init) + "; " + cond
+						}
+						inner := append(append([]string{}, conds...), "("+cond+")")
+						walkSS(x.Body.List, inner)
+						switch e := x.Else.(type) {
+						case *ast.BlockStmt:
+							walkSS(e.List, append(append([]string{}, conds...), "!("+cond+")"))
+						case *ast.IfStmt:
+							walkSS([]ast.Stmt{e}, append(append([]string{}, conds...), "!("+cond+")"))
+						}
+					case *ast.BlockStmt:
+						walkSS(x.List, conds)
+					case *ast.ReturnStmt:
+						lookups = append(lookups, "return @ "+strings.Join(conds, " && "))
+					default:
+						visitExpr(st, conds)
+					}
+				}
+			}
+			walkSS(ss.Body.List, nil)
+		}
+		c.Fact("typedtool.setSchema_cache_accesses", lookups)
+
+		// toolForErr before the handler closure: the `any` input special case, the two setSchema calls and
+		// the condition under which the output side is resolved at all
+		var regSteps []string
+		ast.Inspect(tf.Body, func(n ast.Node) bool {
+			if n == ast.Node(th) {
+				return false
+			}
+			switch x := n.(type) {
+			case *ast.IfStmt:
+				cond := c.Src(x.Cond)
+				if strings.Contains(cond, "reflect.TypeFor") {
+					regSteps = append(regSteps, "if("+cond+")")
+				}
+			case *ast.CallExpr:
+				if src := c.Src(x.Fun); strings.HasPrefix(src, "setSchema[") {
+					var args []string
+					for _, a := range x.Args {
+						args = append(args, c.Src(a))
+					}
+					regSteps = append(regSteps, src+"("+strings.Join(args, ",")+")")
+				}
+			case *ast.AssignStmt:
+				if len(x.Lhs) == 1 && (c.Src(x.Lhs[0]) == "tt.InputSchema" || c.Src(x.Lhs[0]) == "tt.OutputSchema") {
+					regSteps = append(regSteps, c.Src(x))
+				}
+			}
+			return true
+		})
+		c.Fact("typedtool.toolForErr_schema_steps", regSteps)
+
 		// the nil-output rule (server.go): which condition lets a nil `any` through
 		var nilRule []string
 		ast.Inspect(th.Body, func(n ast.Node) bool {
